@@ -42,6 +42,10 @@ let judge _id (c : cursor) (r : cursor) : bool * string =
          match rest with
          | [] -> ()
          | l :: tl ->
+           List.iteri (fun i (e : ventry) ->
+               (* structure first (never masked by a finding about the VALUES of an entry): one link per observation, each in range *)
+               if List.length e.obs <> nobs || List.exists (fun l -> int_of_nat l >= List.length prev) e.obs || int_of_nat e.act >= int_of_nat m.pm.nA then
+                 oracle_fail "links_in_range" site (Printf.sprintf "horizon %d entry %d: %d links for %d observations, or a link / the action is out of range" t i (List.length e.obs) nobs)) l;
            List.iteri (fun i e -> if not (check_entry tol m prev e) then
                           oracle_fail "entry_is_plan" site (Printf.sprintf "horizon %d entry %d is not the plan of its links (or a link is out of range)" t i)) l;
            walk l tl (t + 1) in
@@ -125,6 +129,23 @@ let judge _id (c : cursor) (r : cursor) : bool * string =
                disagree "policy_first" "POMDP::Policy::sampleAction" "model and implementation pick different entries at a lower horizon"
            end;
            ignore ma)) bs;
+    (* probes beside the crossings of two entries: the entry sampleAction picks must attain the maximum there too *)
+    expect r "X";
+    let np = next_int r in
+    for _k = 1 to np do
+      let b0 = q_of_float (float_of_string (next r)) in let b1 = q_of_float (float_of_string (next r)) in
+      let pa = next_int r in let pid = next_int r in
+      let b = [b0; b1] in
+      if pid < 0 || pid >= List.length last then oracle_fail "first_action_attains" "POMDP::Policy::sampleAction" "id out of range (probe beside a crossing)";
+      let e = List.nth last pid in
+      let dotb (x : ventry) = List.fold_left2 (fun acc u v -> q_add acc (q_mul u v)) q_zero x.vals b in
+      let vmax = vbest last b in
+      let slack = q_mul (q_of_ints 1 1000000000000) (q_add q_one (q_abs vmax)) in
+      if q_lt (q_add (dotb e) slack) vmax then
+        oracle_fail "first_action_attains" "POMDP::Policy::sampleAction"
+          (Printf.sprintf "belief %s (beside a crossing): the chosen entry earns %s, the maximum is %s" (str_qs b) (string_of_q (dotb e)) (string_of_q vmax));
+      if int_of_nat e.act <> pa then oracle_fail "first_action_attains" "POMDP::Policy::sampleAction" "action differs from the chosen entry's (probe beside a crossing)"
+    done;
     (* O1b: the horizon-0 entries promise nothing, so that h executed steps earn the whole promise *)
     (match vf with
      | v0 :: _ -> List.iter (fun e -> List.iter (fun x -> if not (q_eq x q_zero) then
